@@ -70,6 +70,19 @@ def _finished(res):
 def configurations(ctx, name="CodecConfig", only=None):
     """Returns (list of {cfg, outcome}, info).  quick: pairwise design with one salt; thorough: three salts
     plus random valid configurations from tlc -simulate in 'free' mode (deeper transforms)."""
+    import os
+
+    cache = os.environ.get("VERIF_CODEC_CACHE")  # mutation-sanity knob only: reuse an enumerated design
+    if cache and os.path.exists(cache):
+        with open(cache) as f:
+            cfgs = json.load(f)
+        lim = int(os.environ.get("VERIF_CODEC_LIMIT") or 0)
+        if only:
+            cfgs = [c for c in cfgs if only(c)]
+        if lim and len(cfgs) > lim:
+            step = len(cfgs) / float(lim)
+            cfgs = [cfgs[int(i * step)] for i in range(lim)]
+        return cfgs, {"debug_cache_used": cache, "pair_coverage": pair_coverage([c["cfg"] for c in cfgs])}
     salts = ctx.pick([0], [0, 1, 2])
     res = tlc.run("CodecConfig", _cfg_text("pairs", salts, 2), coverage=True, timeout=3000)
     check_qm_table(res)
@@ -87,6 +100,9 @@ def configurations(ctx, name="CodecConfig", only=None):
         have = set(json.dumps(c["cfg"], sort_keys=True) for c in cfgs)
         cfgs += [c for c in extra if json.dumps(c["cfg"], sort_keys=True) not in have]
     info["pair_coverage"] = pair_coverage([c["cfg"] for c in cfgs])
+    if cache:
+        with open(cache, "w") as f:
+            json.dump(cfgs, f)
     if only:
         cfgs = [c for c in cfgs if only(c)]
     return cfgs, info
